@@ -129,6 +129,7 @@ type sched struct {
 	chans    map[uintptr]*chanState
 	keyIDs   map[any]int
 	steps    int
+	quiet    bool // choice points are not recorded/explored (deterministic set-up phases take option 0)
 }
 
 // S is the current execution (nil outside Exec).
@@ -359,7 +360,7 @@ func (s *sched) loop() {
 		choice := 0
 		idx := len(s.exec.Points)
 		fp := s.fingerprint(opts)
-		if len(opts) > 1 {
+		if len(opts) > 1 && !s.quiet {
 			if idx < len(s.cfg.Prefix) {
 				choice = s.cfg.Prefix[idx]
 				if choice < 0 || choice >= len(opts) {
@@ -556,6 +557,16 @@ func Join(hs ...Handle) {
 		}
 		return true
 	}})
+}
+
+// SetExploring switches the recording of choice points on or off. A harness
+// turns it off while it builds its fixture (the default option is taken at
+// every point, which is deterministic) and on for the scenario proper, so that
+// the schedule space explored is that of the scenario only.
+func SetExploring(on bool) {
+	if cur != nil {
+		cur.quiet = !on
+	}
 }
 
 // Describe lists what every unfinished thread is blocked at.
